@@ -14,9 +14,10 @@ CHECKS = {
               "with payloads from {empty, literal, random, zero, 0xFF, protobuf-looking, 16-64KiB}; request writes, handler completion and reply writes "
               "are released one at a time by a drawn tape. Oracle: reply == sha256(own request)||len||pad, handler ran exactly once with the caller's bytes, "
               "one request and one response envelope per id on the tap; plus a smoke job (TestC01Net) running 1..16 concurrent unary calls over a real loopback WebSocket pair and over two GoatOverHttp endpoints (wall-clock budget, overrun = inconclusive). Non-trivial = (>=2 calls and reply order != request order on the wire) or a request that is empty or >=16KiB; "
-              "distinct = distinct canonical case JSON (64-bit hash)."),
+              "distinct = distinct canonical case JSON (64-bit hash)."
+              " Virtual time passes (0/1/20/2000 ms) at every quiescent point of the generated schedule, so that timers inside the code under test fire while handlers are parked."),
         jobs=[dict(test="TestC01", quick=1920, thorough=24000), dict(test="TestC01Net", quick=64, thorough=1000, shards=4), dict(test="TestC01Reuse", quick=200, thorough=2000, shards=4)],
-        floors={"TestC01:reordered=true": 0.15, "TestC01:topo=proxy": 0.1, "TestC01:topo=demux": 0.1, "TestC01:ser=true": 0.25},
+        floors={"TestC01:reordered=true": 0.15, "TestC01:topo=proxy": 0.1, "TestC01:topo=demux": 0.1, "TestC01:ser=true": 0.25, "TestC01:time_passes=true": 0.3},
         assumptions=COMMON_ASSUMPTIONS,
     ),
     "C02": dict(
@@ -26,9 +27,10 @@ CHECKS = {
               "(templates: send-all/ping-pong/random/late-close x echo/burst/reply-after-EOF/random, early handler return, optional separate sender/receiver goroutines, optional Header()/Trailer()); "
               "envelope delivery optionally released one at a time by a drawn tape. Oracle (history invariant): handler-received == caller-sent up to where the handler stopped reading, io.EOF exactly after half-close, "
               "caller-received == handler-sent complete and in order, terminal receive is io.EOF iff the handler returned nil, repeated receives after the end never yield data. "
-              "Non-trivial = envelopes of >=2 calls interleaved on one connection, or >=11 messages one way, or separate sender/receiver goroutines; distinct = canonical case JSON hash."),
-        jobs=[dict(test="TestC02", quick=4800, thorough=40000), dict(test="TestC02Race", quick=200, thorough=2000, shards=4), dict(test="FuzzC02", kind="fuzz", quick=0, thorough=90), dict(test="TestC02Fault", quick=300, thorough=3000, shards=4)],
-        floors={"TestC02:interleaved=true": 0.2, "TestC02:concurrent=true": 0.1, "TestC02:msgs>=11": 0.05, "TestC02:kind=client": 0.1, "TestC02:kind=server": 0.1, "TestC02:kind=bidi": 0.2, "TestC02:arm_end=true": 0.1},
+              "Non-trivial = envelopes of >=2 calls interleaved on one connection, or >=11 messages one way, or separate sender/receiver goroutines; distinct = canonical case JSON hash."
+              " burst: 2..64 bidi streams opened in the same instant (optionally through a spin barrier at the verif hook point in front of the id allocation, groups of 2/4/8 callers leaving it within nanoseconds), 1..4 messages each, 1..3 rounds; every stream receives exactly the echoes of its own messages and io.EOF, every handler instance sees one caller's messages only. writefault: one body or half-close write of a client-streaming exchange fails while reads stay healthy (fault error value drawn from kit.FaultErrKinds): the Send reports the failure or the message arrives."),
+        jobs=[dict(test="TestC02", quick=4800, thorough=40000), dict(test="TestC02Race", quick=200, thorough=2000, shards=4), dict(test="FuzzC02", kind="fuzz", quick=0, thorough=90), dict(test="TestC02Fault", quick=300, thorough=3000, shards=4), dict(test="TestC02Burst", quick=800, thorough=8000)],
+        floors={"TestC02:interleaved=true": 0.2, "TestC02:concurrent=true": 0.1, "TestC02:msgs>=11": 0.05, "TestC02:kind=client": 0.1, "TestC02:kind=server": 0.1, "TestC02:kind=bidi": 0.2, "TestC02:arm_end=true": 0.1, "TestC02Burst:burst.spin_barrier=true": 0.4},
         assumptions=COMMON_ASSUMPTIONS,
     ),
     "C03": dict(
@@ -57,8 +59,9 @@ CHECKS = {
         rule=("the protocol automaton (kit.CheckWire) is the sole oracle over the wire tap of the C01-C04 generator families (plus the C03 reset-race scenario and, in the cancel/abandon jobs, the C07 and C11 scenarios): "
               "per (connection, id, direction) projection: unary = one header+body request and one header+trailer+(body|non-OK status) response; stream c->s = OPEN BODY* TRAILER? RESET? with nothing after the reset; "
               "s->c = HEADER? BODY* TRAILER(status) then only resets answering a late body, trailer present iff the handler returned on a live un-reset stream, no reset before that trailer; constant method/source/destination, swapped in responses; "
-              "response metadata only on the first response envelope; server emits only ids it has read. Non-trivial = a projection with >=4 envelopes or a reset, or an early handler return; distinct = canonical case hash."),
-        jobs=[dict(test="TestC06", quick=4800, thorough=60000), dict(test="TestC06Race", quick=300, thorough=3000, shards=4), dict(test="TestC06Cancel", quick=240, thorough=3000)],
+              "response metadata only on the first response envelope; server emits only ids it has read. Non-trivial = a projection with >=4 envelopes or a reset, or an early handler return; distinct = canonical case hash."
+              " unary-cancel: 1..6 unary calls whose caller cancels or times out while the handler runs or while the reply's transport write is pending; the history must still show exactly one request envelope and at most one response per id, and each handler runs once."),
+        jobs=[dict(test="TestC06", quick=4800, thorough=60000), dict(test="TestC06Race", quick=300, thorough=3000, shards=4), dict(test="TestC06Cancel", quick=240, thorough=3000), dict(test="TestC06Unary", quick=800, thorough=8000)],
         floors={"TestC06:family=c01": 0.1, "TestC06:family=c02": 0.2, "TestC06:family=c03": 0.1, "TestC06:family=c04": 0.1, "TestC06:early_return=true": 0.1},
         assumptions=COMMON_ASSUMPTIONS,
     ),
@@ -68,11 +71,12 @@ CHECKS = {
               "(b) rapid strings from six classes (valid, overlong, signed/spaced, wrong unit, grammar soup, arbitrary unicode); (c) thorough: native fuzz target with the grid as seed corpus. Oracle model.Timeout in math/big: accepted iff ^[0-9]{1,8}[HMSmun]$, value == min(n*unit, MaxInt64ns), never negative; "
               "more than 8 digits (which goat's own client emits above 99999999 ms) may be ignored or read exactly, nothing else. end to end in a synctest bubble (virtual clock): caller timeouts from expired to 10^4h, unary and streams, 0..250ms virtual transit, "
               "or a scripted client sending the header with the key in four spellings; oracle: handler has a deadline iff the caller has, D_caller-1ms <= D_handler <= D_caller+transit, remainder <1ms conveyed as exactly 1ms, header value -> arrival+model value, malformed -> no deadline. "
-              "Non-trivial = boundary digit count (1 or 8), saturating product, malformed/overlong class, remainder <1ms, non-canonical key spelling; distinct = distinct input string / case."),
+              "Non-trivial = boundary digit count (1 or 8), saturating product, malformed/overlong class, remainder <1ms, non-canonical key spelling; distinct = distinct input string / case."
+              " flood: 2..5 rounds of 2..32 unary calls drawn from two timeout values per round, released from one gate on 1..3 connections of one server; each handler's deadline must be its own caller's."),
         jobs=[dict(test="TestC08Grid", kind="enum", quick=1, thorough=1, shards=1),
               dict(test="TestC08Strings", quick=24000, thorough=1000000),
               dict(test="TestC08E2E", quick=1600, thorough=60000),
-              dict(test="FuzzC08", kind="fuzz", quick=0, thorough=180), dict(test="TestC08Conc", quick=400, thorough=4000, shards=4)],
+              dict(test="FuzzC08", kind="fuzz", quick=0, thorough=180), dict(test="TestC08Conc", quick=400, thorough=4000, shards=4), dict(test="TestC08Flood", quick=1600, thorough=16000)],
         floors={"TestC08Strings:parser.valid": 0.1, "TestC08Strings:parser.malformed": 0.3, "TestC08Strings:parser.overlong": 0.03, "TestC08E2E:e2e.api": 0.1, "TestC08E2E:e2e.header.valid": 0.03, "TestC08E2E:e2e.api-expired.lt1ms": 0.03},
         assumptions=COMMON_ASSUMPTIONS + ["the timeout parser is reached through the verif-tagged export VerifParseGrpcTimeout (same function the server calls)"],
     ),
@@ -82,9 +86,10 @@ CHECKS = {
               "x explicit cancel or virtual-clock deadline x 0..3 bystander RPCs x delivery tape); every envelope delivery is released one at a time, and the cancellation is placed after each prefix p=0..L of the delivery trace "
               "(all positions; quick tier samples 7 positions when L>10). Oracle: every receive issued after the cancellation returns; what is received overall is a prefix of what the handler really sent; within unread+1 receives the result is the Canceled/DeadlineExceeded status and stays so; never io.EOF; "
               "a later send fails with the context's error; Header() returns; a reset for the id is on the tap; the handler's context is done at the next quiescent point and the handler has exited; bystanders complete exactly; the cancelled stream's wire projection conforms (C06). "
-              "Non-trivial = trace length >=2, or >=1 unread response, or deadline; distinct = distinct scenario; counters.positions = number of (scenario, position) executions."),
+              "Non-trivial = trace length >=2, or >=1 unread response, or deadline; distinct = distinct scenario; counters.positions = number of (scenario, position) executions."
+              " In a quarter of the cases the caller's context carries a custom cancellation cause (WithCancelCause / WithTimeoutCause); the statuses demanded are those of ctx.Err()."),
         jobs=[dict(test="TestC07", quick=1280, thorough=6000), dict(test="FuzzC07", kind="fuzz", quick=0, thorough=90)],
-        floors={"TestC07:unread>=3": 0.08, "TestC07:deadline=true": 0.3, "TestC07:kind=bidi": 0.2, "TestC07:kind=server": 0.2, "TestC07:kind=client": 0.2, "TestC07:park_send=true": 0.05},
+        floors={"TestC07:unread>=3": 0.08, "TestC07:deadline=true": 0.3, "TestC07:kind=bidi": 0.2, "TestC07:kind=server": 0.2, "TestC07:kind=client": 0.2, "TestC07:park_send=true": 0.05, "TestC07:cause=true": 0.1},
         assumptions=COMMON_ASSUMPTIONS + ["handlers that ignore >=2 queued requests and then wait are documented head-of-line blocking and generated under C11, not here"],
     ),
     "C11": dict(
@@ -103,9 +108,10 @@ CHECKS = {
               "the client transport's Read is made to fail after each prefix p=0..L of the delivered response envelopes (every position of every scenario, plus after the last), with the write side failing too or staying writable; "
               "one more unary call and one more stream are started after the failure, and optionally a call is parked by the verif hook between the multiplexer's failure check and its registration until the failure has been recorded. "
               "Oracle: at the next quiescent point every call has returned; a call succeeds only if its complete response had been delivered, and then with exactly the scripted data; streams receive a prefix of the scripted bodies and never end in io.EOF before their trailer was delivered; Header() returns; calls started afterwards and the window call fail. "
-              "Non-trivial = trace length >=2, or window armed, or write side still writable; counters.positions = (scenario, position) executions."),
+              "Non-trivial = trace length >=2, or window armed, or write side still writable; counters.positions = (scenario, position) executions."
+              " The failing transport's error value is drawn from kit.FaultErrKinds (a private error, io.EOF, an error wrapping io.EOF, io.ErrUnexpectedEOF, io.ErrClosedPipe, net.ErrClosed, context.Canceled, os.ErrDeadlineExceeded): goat uses io.EOF as its own clean-end signal, so a transport reporting the peer's close that way must not read as success."),
         jobs=[dict(test="TestC09", quick=960, thorough=6000), dict(test="TestC09Storm", quick=1600, thorough=40000), dict(test="FuzzC09", kind="fuzz", quick=0, thorough=90)],
-        floors={"TestC09:window=unary": 0.1, "TestC09:window=stream": 0.1, "TestC09:write_fails=false": 0.3},
+        floors={"TestC09:window=unary": 0.1, "TestC09:window=stream": 0.1, "TestC09:write_fails=false": 0.3, "TestC09:read_error=eof": 0.04, "TestC09:read_error=wrapped-eof": 0.04},
         assumptions=COMMON_ASSUMPTIONS + ["the check-then-register window is reached through the verif-tagged yield points mux.unary.beforeRegister / mux.stream.beforeRegister"],
     ),
     "C10": dict(
@@ -115,7 +121,7 @@ CHECKS = {
               "Oracle at the quiescent point after the ending: Serve has returned - but not while a context-ignoring streaming handler is still running; every streaming handler has finished; the context of every in-flight handler, unary included, is done; "
               "after the context-ignoring unary handlers have been released and returned, the synctest bubble ends with no goroutine left. Non-trivial = >=1 unary and >=1 stream in flight, or a handler parked in send."),
         jobs=[dict(test="TestC10", quick=4800, thorough=30000), dict(test="FuzzC10", kind="fuzz", quick=0, thorough=90)],
-        floors={"TestC10:ending=readfail": 0.2, "TestC10:ending=writefail": 0.2, "TestC10:ending=stop": 0.2, "TestC10:parked-in-send": 0.1, "TestC10:orphan=true": 0.2},
+        floors={"TestC10:ending=readfail": 0.2, "TestC10:ending=writefail": 0.2, "TestC10:ending=stop": 0.15, "TestC10:parked-in-send": 0.1, "TestC10:orphan=true": 0.2},
         assumptions=COMMON_ASSUMPTIONS + ["cancelling the context passed to Serve is not among the endings the property lists and is not generated"],
     ),
     "C12": dict(
@@ -144,10 +150,11 @@ CHECKS = {
               "on the client side (scripted server answering k outstanding calls: unary replies, bodies, trailers with per-call tokens and trailer metadata) and on the server side (scripted caller interleaving the opens, bodies and trailers of k streams and unary requests; handlers echo); "
               "(b) rapid: 2..8 calls with 1..6 envelopes each in a drawn interleaving; (c) id allocation: bursts of 2..64 callers (unary and streams) released from one gate in the same step, 1..4 bursts per connection; (d) one history of 10^4 (quick) / 10^5 (thorough) unary calls on one connection. "
               "Oracle: every call/handler observes exactly its own envelope contents in its own order and nothing else (tokens, request metadata, trailer metadata, echoes per id); the opening ids on the wire are pairwise distinct and as many as calls. "
-              "Non-trivial = an interleaving with >=1 switch between calls, or a burst of >=8 concurrent starts; distinct = distinct (side, shape, interleaving)."),
-        jobs=[dict(test="TestC05Enum", kind="enum", quick=1, thorough=1), dict(test="TestC05", quick=3200, thorough=20000), dict(test="TestC05IDs", quick=480, thorough=2000),
+              "Non-trivial = an interleaving with >=1 switch between calls, or a burst of >=8 concurrent starts; distinct = distinct (side, shape, interleaving)."
+              " Payloads are 4-byte tokens or padded to 1100..20000 bytes with a per-call fill. ids: bursts optionally leave the id-allocation point through the spin barrier, and optionally keep all eight unary workers busy for 20 ms of virtual time while the rest of the burst arrives."),
+        jobs=[dict(test="TestC05Enum", kind="enum", quick=1, thorough=1), dict(test="TestC05", quick=3200, thorough=20000), dict(test="TestC05IDs", quick=1280, thorough=8000),
               dict(test="TestC05History", kind="enum", quick=1, thorough=1, shards=1), dict(test="TestC05Reuse", quick=200, thorough=2000, shards=4)],
-        floors={"TestC05:side=client": 0.25, "TestC05:side=server": 0.25},
+        floors={"TestC05:side=client": 0.25, "TestC05:side=server": 0.25, "TestC05:pooled_payloads=true": 0.3, "TestC05IDs:slow_handlers=true": 0.3, "TestC05IDs:spin_barrier=true": 0.4},
         assumptions=COMMON_ASSUMPTIONS,
     ),
     "C14": dict(
@@ -155,9 +162,10 @@ CHECKS = {
         rule=("rapid-generated histories on one long-lived client+server connection: 1..6 rounds of 1..32 RPCs in flight together, each of a drawn kind (unary/client/server/bidi) and outcome "
               "(ok, handler error, caller cancel, virtual-clock deadline, server reset of a stream whose handler returned while the caller keeps sending, open whose transport write fails), 0..3 messages each; after every round the bubble is settled (quiescent point). "
               "Invariant at every quiescent point: goat.VerifClientCalls(cc)==0, goat.VerifServerStreams()==0 (verif-tagged registry accessors) and the multiset of creation sites of the bubble's live goroutines equals the idle set recorded right after connection start. "
-              "Non-trivial = history with >=3 different outcomes and a round of >=8 RPCs; counters.rpcs = RPCs executed."),
+              "Non-trivial = history with >=3 different outcomes and a round of >=8 RPCs; counters.rpcs = RPCs executed."
+              " Outcome cancel-send: the cancellation lands while one SendMsg of the call is parked inside the transport write. Fault error values drawn from kit.FaultErrKinds."),
         jobs=[dict(test="TestC14", quick=1600, thorough=48000), dict(test="FuzzC14", kind="fuzz", quick=0, thorough=90)],
-        floors={"TestC14:outcome=openfail": 0.3, "TestC14:outcome=cancel": 0.3, "TestC14:outcome=cancel-unread": 0.15, "TestC14:outcome=deadline": 0.3, "TestC14:outcome=reset": 0.3},
+        floors={"TestC14:outcome=openfail": 0.3, "TestC14:outcome=cancel": 0.3, "TestC14:outcome=cancel-unread": 0.15, "TestC14:outcome=deadline": 0.3, "TestC14:outcome=reset": 0.3, "TestC14:outcome=cancel-send": 0.1},
         assumptions=COMMON_ASSUMPTIONS + ["registry sizes are read through the verif-tagged accessors VerifClientCalls / VerifServerStreams"],
     ),
     "C20": dict(
@@ -166,9 +174,10 @@ CHECKS = {
               "client chains of 0..3 composed into goat's single slot (request tag, outgoing metadata); 1..3 recording stats handlers per side whose TagRPC plants a unique tag; RPC kind x outcome in {ok, handler error, caller cancel, virtual deadline, transport failure, failed open}; 1..3 RPCs per connection. "
               "Oracle model.Chain: server interceptors and handler each entered and exited exactly once per RPC, nested in registration order; the handler sees the composed request and metadata, the caller the reverse-composed reply or mapped error; "
               "per stats handler and RPC tag: Begin first, exactly one Begin and one End, End.Error==nil iff the RPC succeeded on that side, no event without the tag, TagRPC once per RPC (server side may see none for an RPC that never reached it); exactly one ConnBegin and ConnEnd per connection per handler. "
-              "Non-trivial = chain length >=3, or a non-ok outcome, or >=2 stats handlers on a side."),
+              "Non-trivial = chain length >=3, or a non-ok outcome, or >=2 stats handlers on a side."
+              " Further drawn dimensions: handler errors that are or wrap io.EOF (the caller must see a failure and End.Error must be non-nil), transport failures with the error values of kit.FaultErrKinds, and for unary ok calls a cancellation issued from inside a client stats handler at the reply's InPayload event (the call succeeds, so End.Error must be nil)."),
         jobs=[dict(test="TestC20", quick=4800, thorough=30000), dict(test="FuzzC20", kind="fuzz", quick=0, thorough=90), dict(test="TestC20Overlap", quick=400, thorough=4000, shards=4)],
-        floors={"TestC20:outcome=cancel": 0.08, "TestC20:outcome=transport": 0.06, "TestC20:outcome=openfail": 0.05, "TestC20:chain=6": 0.08, "TestC20:single=true": 0.03, "TestC20:unread=true": 0.02},
+        floors={"TestC20:outcome=cancel": 0.08, "TestC20:outcome=transport": 0.06, "TestC20:outcome=openfail": 0.05, "TestC20:chain=6": 0.08, "TestC20:single=true": 0.03, "TestC20:unread=true": 0.02, "TestC20:late_cancel=true": 0.02, "TestC20:handler_error=eof": 0.02, "TestC20:transport_error=eof": 0.004},
         assumptions=COMMON_ASSUMPTIONS + ["a caller's cancellation of a unary call is not conveyed to the server by goat (no reset for unary calls); the harness releases such handlers itself"],
     ),
     "C16": dict(
@@ -190,9 +199,10 @@ CHECKS = {
         rule=("rapid-generated scenarios around 1..6 rounds of honest ping-pong between two scripted peers c0 and c1 attached to a proxy: spoof (an envelope from c0 claiming another attached name / an empty or unattached name / carrying no header), "
               "bad peer (a destination whose writes never complete with 20 envelopes queued for it, a failing reader, a failing writer, a dial error, a dial still in progress), re-attachment of c1 under its name before or after the old connection fails on read or write, and cancellation of the proxy's context after 0..8 steps. "
               "Oracle: no crash; spoofed/headerless envelopes reach nobody; every honest envelope arrives exactly once at the next quiescent point whatever the bad peer does; a failed connection is reported to the disconnect callback and an envelope to its name then triggers a fresh dial; "
-              "after re-attachment traffic reaches the new connection; after cancellation nothing is forwarded, Serve returns and the synctest bubble ends with no goroutine left. Non-trivial = every case (all involve a fault, a spoof or a cancellation)."),
+              "after re-attachment traffic reaches the new connection; after cancellation nothing is forwarded, Serve returns and the synctest bubble ends with no goroutine left. Non-trivial = every case (all involve a fault, a spoof or a cancellation)."
+              " The bad peer's transport optionally ignores the context passed to Read (as a net.Conn without deadlines does); fault error values are drawn from kit.FaultErrKinds; mode attach-race: a peer attaches at the very moment the first envelope for its undiallable name arrives."),
         jobs=[dict(test="TestC17", quick=3200, thorough=30000), dict(test="FuzzC17", kind="fuzz", quick=0, thorough=90)],
-        floors={"TestC17:mode=cancel": 0.15, "TestC17:mode=reattach/old_first=false/read": 0.03, "TestC17:mode=spoof/other-source": 0.03, "TestC17:mode=badpeer/slow-failing-dial": 0.02},
+        floors={"TestC17:mode=cancel": 0.1, "TestC17:mode=reattach/old_first=false/read": 0.02, "TestC17:mode=spoof/other-source": 0.025, "TestC17:mode=badpeer/slow-failing-dial": 0.012, "TestC17:badpeer.deaf_read=true": 0.05, "TestC17:mode=attach-race": 0.1},
         assumptions=COMMON_ASSUMPTIONS,
     ),
     "C18": dict(
@@ -200,9 +210,10 @@ CHECKS = {
         rule=("model-based rapid check: 1..8 keys, histories of 1..40 operations from {feed an envelope for key k on the shared transport, pause / resume the reader of k's logical connection (a paused reader leaves the run loop parked on the hand-off), "
               "write an envelope on k's logical connection, Cancel(k), Stop()}, the bubble settled after every operation; reference model model.Demux simulates the run loop (FIFO of fed envelopes, lookup/creation of the key's current life, hand-off blocked by a paused reader, drop of the parked envelope on Cancel, new life on next use). "
               "Oracle: every logical connection received exactly the envelopes the model hands to that life, in order; announcements == key lives; envelopes written on logical connections appear unchanged and in order on the shared transport; writes on a cancelled connection fail without blocking; readers of cancelled connections have returned with an error; Run has returned after Stop; no panic. "
-              "rpc: the C01/C02 generators from 2..4 logical clients through one shared transport into one Server via Demux keyed by source, same oracles. Non-trivial = >=2 keys, a Cancel or a Stop."),
-        jobs=[dict(test="TestC18", quick=6400, thorough=80000), dict(test="TestC18RPC", quick=320, thorough=8000), dict(test="TestC18Parked", quick=300, thorough=3000, shards=4), dict(test="FuzzC18", kind="fuzz", quick=0, thorough=90)],
-        floors={"TestC18:cancel=true": 0.3, "TestC18:stop=true": 0.03, "TestC18:cancel_while_parked=true": 0.03},
+              "rpc: the C01/C02 generators from 2..4 logical clients through one shared transport into one Server via Demux keyed by source, same oracles. Non-trivial = >=2 keys, a Cancel or a Stop."
+              " storm: a feeder goroutine writes 1..4 envelopes for each of 2..24 keys without pausing while a second goroutine cancels a drawn subset of the keys; never-cancelled keys are announced once and receive everything in order, cancelled keys never see duplicates, reordering or foreign envelopes. writefault: one write on the shared transport fails (drawn error value); later arrivals for the key are still delivered, other keys are undisturbed, Cancel still works."),
+        jobs=[dict(test="TestC18", quick=6400, thorough=80000), dict(test="TestC18RPC", quick=320, thorough=8000), dict(test="TestC18Parked", quick=300, thorough=3000, shards=4), dict(test="TestC18Storm", quick=1600, thorough=16000), dict(test="TestC18WriteFault", quick=640, thorough=6400), dict(test="FuzzC18", kind="fuzz", quick=0, thorough=90)],
+        floors={"TestC18:cancel=true": 0.3, "TestC18:stop=true": 0.03, "TestC18:cancel_while_parked=true": 0.03, "TestC18Storm:storm.cancels=true": 0.5},
         assumptions=COMMON_ASSUMPTIONS,
     ),
     "C19": dict(
@@ -225,7 +236,7 @@ CHECKS = {
               "C11 abandonments, C16 proxy envelopes and RPCs, C17, C18 demux model and RPCs, C20 interceptors/stats) are executed at GOMAXPROCS 1, 2, 4 and 16 (go test -cpu) with a callback at every verif hook point that yields the processor according to a drawn tape. "
               "The only oracle is the race detector (GORACE=halt_on_error=1): a report with at least one goat frame is a violation, a report without one is a harness bug (exit 2). Non-trivial = a workload with >=2 user goroutines on one connection; distinct = (family, case)."),
         jobs=[dict(test="TestC15", race=True, cpu="1,2,4,16", quick=960, thorough=24000)],
-        floors={"TestC15:family=c02": 0.05, "TestC15:family=c10": 0.03, "TestC15:family=c18": 0.03, "TestC15:gomaxprocs=16": 0.15, "TestC15:gomaxprocs=1": 0.15},
+        floors={"TestC15:family=c02": 0.05, "TestC15:family=c10": 0.02, "TestC15:family=c18": 0.02, "TestC15:gomaxprocs=16": 0.15, "TestC15:gomaxprocs=1": 0.15, "TestC15:family=c18storm": 0.02},
         assumptions=COMMON_ASSUMPTIONS + ["the race detector only sees the interleavings that were executed: this is search, not proof"],
         timeout_quick=900,
     ),
